@@ -159,6 +159,10 @@ func genNet() *rapid.Generator[Net] {
 			}
 			ip[i] = int(rapid.Byte().Draw(t, "ip")) & mask[i]
 		}
+		if n == 4 && rapid.IntRange(0, 3).Draw(t, "ip16") == 0 {
+			// net.IPNet{IP: net.ParseIP("a.b.c.d"), Mask: net.CIDRMask(k, 32)}: 16-byte address, 4-byte mask
+			ip = append([]int{0, 0, 0, 0, 0, 0, 0, 0, 0, 0, 255, 255}, ip...)
+		}
 		return Net{IP: ip, Mask: mask}
 	})
 }
